@@ -347,7 +347,7 @@ def gen_case(rng, tier):
         vp = None
         if rng.random() < 0.08 and known[p]:
             vp = rng.choice(known[p])
-        body = [["lg", newtag()]]
+        body = []
         nb = rng.choice([1, 1, 2, 2, 3])
         for _ in range(nb):
             r = rng.random()
@@ -363,6 +363,12 @@ def gen_case(rng, tier):
                 body.append(["tc", rng.choice(names)])
             else:
                 body.append(["lg", newtag()])
+        # the log entry ticks the global clock: in a third of the loops it comes last, so that the
+        # first update happens in the very generation the goal captured
+        if rng.random() < 0.65:
+            body = [["lg", newtag()]] + body
+        else:
+            body = body + [["lg", newtag()]]
         return ["lp", g, p, kpat(p), vp, body]
 
     maxdepth = 2 if tier == "quick" or rng.random() < 0.7 else 3
@@ -465,7 +471,7 @@ def judge(cases, impl, model, findings, stats, verbose=False):
         expl = "none"
         for v in ("01", "10", "00"):
             pv = model.get(c["id"] + ".m" + v, "missing")
-            if pv == iv or (iv == "|timeout" and pv.endswith("|stuck")) or \
+            if pv == iv or ((iv == "|timeout" or iv.startswith("run:")) and pv.endswith("|stuck")) or \
                     (iv.endswith("|runaway") and pv.endswith("|runaway") and iv.split(";")[:50] == pv.split(";")[:50]):
                 expl = VARIANT_NAME[v]
                 break
@@ -507,7 +513,7 @@ def run(ctx):
         n += 1
         cases.append(make_case(n, c))
     ncorpus = n
-    total = 700 if tier == "quick" else 14000
+    total = 400 if tier == "quick" else 6000
     while len(cases) < ncorpus + total:
         n += 1
         cases.append(make_case(n, gen_case(rng, tier)))
